@@ -419,7 +419,7 @@ QUERIES = [
     {"name": "Q10b", "fn": q10b, "setup": setup_q10b, "shards": {"quick": [{"be": b, "maxlen": 4} for b in BES], "thorough": [{"be": b, "maxlen": 6} for b in BES]},
      "timeout": {"quick": 300, "thorough": 1200}, "bound": "spec = symbolic str of length <= 4 (quick) / <= 6 (thorough), any characters"},
     {"name": "Q10c", "fn": q10c, "e2e": e2e_q10c,
-     "shards": {"quick": [{"be": b, "maxn": 2} for b in BES], "thorough": [{"be": b, "maxn": 3, "first": f} for b in BES for f in range(len(ALPHA))]},
+     "shards": {"quick": [{"be": b, "maxn": 2} for b in BES], "thorough": [{"be": b, "maxn": 3, "first": f} for b in BES for f in range(len(ALPHA)) if ALPHA[f] != "\t"]},
      "timeout": {"quick": 400, "thorough": 600},
      "bound": "directory name of 1..2 (quick) / 1..3 (thorough) characters over the alphabet %r (those accepted by target validation)" % (ALPHA,)},
     {"name": "Q10d", "fn": q10d, "shards": [{"be": b} for b in BES], "timeout": 300,
